@@ -60,13 +60,6 @@ def retInputLeaf {K : Type} : Leaf K :=
   { sig := .oop, raw := false, phi := id, oop := fun x s => (x, s),
     ip := fun _ _ s => (.none, s) }
 
-/-- `ScalingOperator._call(x, out=None)`: `out = scalar * x` / `out.lincomb(scalar, x)`;
-`return out` (dual use). -/
-def scaleLeaf {K : Type} [Mul K] (c : K) : Leaf K :=
-  { sig := .dual, raw := false, phi := fun v i => c * v i,
-    oop := fun x s => alloc s (fun i => c * s.mem x i),
-    ip := fun x y s => (.out, s.write y (fun i => c * s.mem x i)) }
-
 /-- `InnerProductOperator`-like out-of-place-only leaf (`_call(x)` returning a new object). -/
 def oopLeaf {K : Type} (f : Vec K → Vec K) : Leaf K :=
   { sig := .oop, raw := true, phi := f,
@@ -465,14 +458,50 @@ theorem C03.set_zero_keeps_nan :
   simp [run, exec, prog, l2Step, env0, Env.set, St.write, srcVals, cst, nanFns, nanPar] <;>
   decide
 
-/-- The concrete leaves used in the examples satisfy the leaf contract. -/
-theorem C03.scale_leaf_ok {K : Type} [CommRing K] (c : K) : LeafOK (scaleLeaf c) := by
+/-- The modelled `default_ops` leaves (`ScalingOperator`/`IdentityOperator`,
+`ConstantOperator`, `MultiplyOperator`, `PowerOperator`, `ZeroOperator`, and the
+out-of-place-only `ComplexModulusSquared`) satisfy the leaf contract, aliased case included. -/
+theorem C03.scale_leaf_ok {K : Type} [CommRing K] (c : K) : LeafOK (scalingLeaf c) := by
   refine ⟨fun _ s x hx => ?_, fun _ s x y hx hy => ?_⟩
   · obtain ⟨s0, ea, hn0, hv0, hf0⟩ := alloc_spec s (fun i => c * s.mem x i)
-    simp only [scaleLeaf, ea]
+    simp only [scalingLeaf, ea]
     exact ⟨le_refl _, by omega, hv0, fun b hb => hf0 b (by omega)⟩
-  · simp only [scaleLeaf]
+  · simp only [scalingLeaf]
     exact ⟨by simp, by simp, fun b _ hne => write_mem_other _ _ _ _ hne, by simp⟩
+
+theorem C03.default_leaves_ok {K : Type} [CommRing K] (v : Vec K) (pw : K → K) :
+    LeafOK (constLeaf v) ∧ LeafOK (multLeaf v) ∧ LeafOK (powLeaf pw) ∧
+    LeafOK (zeroLeaf (K := K)) ∧ LeafOK (modSqLeaf (K := K)) := by
+  refine ⟨⟨fun _ s x hx => ?_, fun _ s x y hx hy => ?_⟩, ⟨fun _ s x hx => ?_, fun _ s x y hx hy => ?_⟩,
+    ⟨fun _ s x hx => ?_, fun _ s x y hx hy => ?_⟩, ⟨fun _ s x hx => ?_, fun _ s x y hx hy => ?_⟩,
+    ⟨fun _ s x hx => ?_, fun h => absurd rfl h⟩⟩
+  · obtain ⟨s0, ea, hn0, hv0, hf0⟩ := alloc_spec s v
+    simp only [constLeaf, ea]
+    exact ⟨le_refl _, by omega, hv0, fun b hb => hf0 b (by omega)⟩
+  · simp only [constLeaf]
+    exact ⟨by simp, by simp, fun b _ hne => write_mem_other _ _ _ _ hne, by simp⟩
+  · obtain ⟨s0, ea, hn0, hv0, hf0⟩ := alloc_spec s (fun i => s.mem x i * v i)
+    simp only [multLeaf, ea]
+    exact ⟨le_refl _, by omega, hv0, fun b hb => hf0 b (by omega)⟩
+  · obtain ⟨s0, ea, hn0, hv0, hf0⟩ := alloc_spec s (fun i => v i * s.mem x i)
+    simp only [multLeaf, ea]
+    refine ⟨by simp, ?_, ?_, by simp only [write_next]; omega⟩
+    · rw [write_mem_same, hv0]; funext i; ring
+    · intro b hb hne; rw [write_mem_other _ _ _ _ hne, hf0 b (by omega)]
+  · obtain ⟨s0, ea, hn0, hv0, hf0⟩ := alloc_spec s (fun i => pw (s.mem x i))
+    simp only [powLeaf, ea]
+    exact ⟨le_refl _, by omega, hv0, fun b hb => hf0 b (by omega)⟩
+  · simp only [powLeaf]
+    refine ⟨by simp, by simp, ?_, by simp⟩
+    intro b _ hne; rw [write_mem_other _ _ _ _ hne, write_mem_other _ _ _ _ hne]
+  · obtain ⟨s0, ea, hn0, hv0, hf0⟩ := alloc_spec s (fun i => 0 * s.mem x i)
+    simp only [zeroLeaf, ea]
+    exact ⟨le_refl _, by omega, hv0, fun b hb => hf0 b (by omega)⟩
+  · simp only [zeroLeaf]
+    exact ⟨by simp, by simp, fun b _ hne => write_mem_other _ _ _ _ hne, by simp⟩
+  · obtain ⟨s0, ea, hn0, hv0, hf0⟩ := alloc_spec s (fun i => s.mem x i * s.mem x i + 0 * 0)
+    simp only [modSqLeaf, ea]
+    exact ⟨le_refl _, by omega, hv0, fun b hb => hf0 b (by omega)⟩
 
 theorem C03.oop_leaf_ok {K : Type} (f : Vec K → Vec K) : LeafOK (oopLeaf f) := by
   refine ⟨fun _ s x hx => ?_, fun h => absurd rfl h⟩
@@ -483,7 +512,7 @@ theorem C03.oop_leaf_ok {K : Type} (f : Vec K → Vec K) : LeafOK (oopLeaf f) :=
 /-- Non-vacuity: a depth-3 tree mixing a dual-use leaf, an out-of-place-only leaf (default
 in-place bridge, raw result wrapped) and four expression classes satisfies the hypotheses of
 `call_protocol_partial`; its aliased in-place call on x = (5, …) yields 2*(3*5) + (5*5 + 7) = 62. -/
-example : let e : Op Int := .sum (.comp (.leaf (scaleLeaf 2)) (.leaf (scaleLeaf 3)))
+example : let e : Op Int := .sum (.comp (.leaf (scalingLeaf 2)) (.leaf (scalingLeaf 3)))
                             (.vecsum (.leaf (oopLeaf fun v i => v i * v i)) (fun _ => 7))
     AllOK e ∧ ∃ s', callI (fun _ _ => 99) e 0 0 ⟨fun _ _ => 5, 1⟩ = .ok 0 s' ∧ s'.mem 0 0 = 62 := by
   intro e
@@ -491,4 +520,4 @@ example : let e : Op Int := .sum (.comp (.leaf (scaleLeaf 2)) (.leaf (scaleLeaf 
   refine ⟨hok, ?_⟩
   obtain ⟨s', e1, v1, _, _⟩ := C03.call_in_place (fun _ _ => 99) e hok ⟨fun _ _ => 5, 1⟩ 0 0
     (by simp) (by simp)
-  exact ⟨s', e1, by rw [v1]; simp [e, den, scaleLeaf, oopLeaf]⟩
+  exact ⟨s', e1, by rw [v1]; simp [e, den, scalingLeaf, oopLeaf]⟩
